@@ -57,6 +57,9 @@ def khatrirao(*matrices: np.ndarray, reverse: bool = False) -> np.ndarray:
 
     # Computation
     P = matrices[0]
+    if len(matrices) == 1:
+        # Nothing to multiply: do not hand back the caller's own matrix
+        P = P.copy()
     for i in matrices[1:]:
         P = np.reshape(i, newshape=(-1, 1, ncolFirst)) * np.reshape(
             P, newshape=(1, -1, ncolFirst), order="F"
